@@ -172,8 +172,9 @@ type Obl struct {
 	Func  string
 	Text  string
 	Pos   string
-	obSym string
-	okPre string
+	obSym    string
+	okPre    string
+	terminal bool
 	// results
 	Result  string
 	Solver  string
@@ -227,6 +228,9 @@ type Enc struct {
 	modRefs   []modRef // evaluated modifies targets (in the pre-state)
 	panicTags []string
 	mode      string // "body" or "lemma"
+	checked   map[string]*ssa.BasicBlock
+	ufArith   bool
+	terminal  bool
 }
 
 type modRef struct {
@@ -245,7 +249,7 @@ func newEnc(p *Program, fn *ssa.Function, fc *FuncC) *Enc {
 		heapInits: map[string]Term{}, vals: map[ssa.Value]Val{}, outState: map[*ssa.BasicBlock]*State{},
 		edgeGuard: map[[2]int]Term{}, blockG: map[*ssa.BasicBlock]Term{}, oblCtr: map[string]int{},
 		loops: map[*ssa.BasicBlock]*loopInfo{}, backEdge: map[[2]int]bool{}, debugVals: map[string][]ssa.Value{},
-		params: map[string]CVal{}, mulSeen: map[string]bool{}, okCur: "true", curGuard: tTrue}
+		params: map[string]CVal{}, mulSeen: map[string]bool{}, okCur: "true", curGuard: tTrue, checked: map[string]*ssa.BasicBlock{}}
 	return e
 }
 
@@ -333,9 +337,14 @@ func (e *Enc) obligeG(guard Term, kind, label string, tags []string, cond Term, 
 	}
 	ob.obSym = fmt.Sprintf("ob~%d", id)
 	e.emit("(define-fun %s () Bool %s) ; %s", ob.obSym, tImp(guard, cond).S, strings.ReplaceAll(name, "\n", " "))
-	ok := fmt.Sprintf("ok~%d", id)
-	e.emit("(define-fun %s () Bool (and %s %s))", ok, e.okCur, ob.obSym)
-	e.okCur = ok
+	if e.terminal {
+		// nothing follows this point on its path: the obligation is not assumed later
+		ob.terminal = true
+	} else {
+		ok := fmt.Sprintf("ok~%d", id)
+		e.emit("(define-fun %s () Bool (and %s %s))", ok, e.okCur, ob.obSym)
+		e.okCur = ok
+	}
 	e.obls = append(e.obls, ob)
 }
 
@@ -344,6 +353,17 @@ func (e *Enc) oblige(kind, label string, tags []string, cond Term, pos token.Pos
 }
 
 func (e *Enc) safety(kind string, cond Term, pos token.Pos) {
+	if cond.S == "true" {
+		return
+	}
+	// a check already made on the same term in a dominating block is not repeated
+	key := kind + "|" + cond.S
+	if b, ok := e.checked[key]; ok && e.curBlock != nil && (b == e.curBlock || b.Dominates(e.curBlock)) {
+		return
+	}
+	if e.curBlock != nil {
+		e.checked[key] = e.curBlock
+	}
 	label := e.p.srcLine(pos)
 	if label == "" {
 		label = "?"
@@ -371,6 +391,24 @@ func (e *Enc) mulTerm(a, b Term) Term {
 		e.emit("(assert (=> (= %s 1) (= %s %s)))", b.S, t.S, a.S)
 	}
 	return t
+}
+
+// modTerm / divTerm: Euclidean mod / div on non-negative operands. In UF arithmetic mode
+// (contract clause `arith uf`) a symbolic divisor gives an uninterpreted umod/udiv
+// constrained by the triggered axioms of the preamble (each proved against native
+// div/mod by the arith-axioms obligations).
+func (e *Enc) modTerm(a, b Term) Term {
+	if e.ufArith && !isNumeral(b.S) {
+		return Term{app("umod", a.S, b.S), sInt}
+	}
+	return Term{app("mod", a.S, b.S), sInt}
+}
+
+func (e *Enc) divTerm(a, b Term) Term {
+	if e.ufArith && !isNumeral(b.S) {
+		return Term{app("udiv", a.S, b.S), sInt}
+	}
+	return Term{app("div", a.S, b.S), sInt}
 }
 
 func isNumeral(s string) bool {
